@@ -22,7 +22,7 @@ TraceInit == /\ tid \in 1..Len(Traces) /\ l = 1
              /\ warm = [p \in Paths |-> Absent] /\ last = [op |-> "none"] /\ act = [op |-> "Init"] /\ steps = 0
 Step(e) ==
     \/ e.act.op = "Edit" /\ Edit(e.act.p, e.act.c)
-    \/ e.act.op = "Build" /\ BuildAny([state |-> e.act.cfg.state]) /\ last'.listing = Lst(e.res.listing)
+    \/ e.act.op = "Build" /\ BuildAny([state |-> e.act.cfg.state, sp |-> e.act.cfg.sp]) /\ last'.listing = Lst(e.res.listing)
     \/ e.act.op = "Sub" /\ Sub(e.act.d) /\ last'.listing = Lst(e.res.listing)
     \/ e.act.op = "BuildOther" /\ BuildOther
     \/ e.act.op = "Perm" /\ Tick /\ act' = [op |-> "Perm"] /\ UNCHANGED <<ws, warm, last>>
